@@ -25,7 +25,8 @@ class Prop(BaseProp):
     shard = 120
     rule = ("Enc: every (witness version, program length) in 0..17 x 0..42 with random programs, hrps bc / tb / odd ones (1 char, 83 chars, digits, "
             "with '1'), negative and > 31 versions, program bytes out of range; Dec: strings reachable from valid addresses by insertion, deletion, "
-            "case change (all upper, mixed), other hrp, > 90 characters, bad padding, wrong checksum constant for the version; Mut: 1..4 random "
+            "case change (all upper, mixed), other hrp, > 90 characters, bad padding, wrong checksum constant for the version, non-ASCII characters "
+            "whose case mapping is an ASCII charset letter (KELVIN SIGN, LONG S) or a look-alike; Mut: 1..4 random "
             "substitutions in the data part of valid addresses (all lengths the library emits), incl. the weight-4 patterns that switch between "
             "version 0 and non-0. Non-trivial = distinct (case, output).")
 
@@ -82,6 +83,20 @@ class Prop(BaseProp):
                     for p in pos:
                         t[p] = rng.choice([c for c in CHARSET if c != a[p]])
                     cases.append({"kind": "Mut", "hrp": hrp, "orig": a, "variant": "".join(t)})
+        # non-ASCII characters whose str.lower()/str.upper() is an ASCII letter of the charset (KELVIN SIGN -> k, LONG S -> S, ...)
+        for hrp, a in valid[:6]:
+            up = a.upper()
+            for ch, rep in (("K", "\u212a"), ("S", "\u017f")):
+                if ch in up[3:]:
+                    i = up.index(ch, 3)
+                    cases.append({"kind": "Dec", "hrp": hrp, "addr": up[:i] + rep + up[i + 1:]})
+                    cases.append({"kind": "Dec", "hrp": hrp, "addr": up.replace(ch, rep)})
+            for ch, rep in (("k", "\u212a"), ("s", "\u017f"), ("a", "\u00e1"), ("e", "\u0435"), ("q", "\uff51")):
+                if ch in a[3:]:
+                    i = a.index(ch, 3)
+                    cases.append({"kind": "Dec", "hrp": hrp, "addr": a[:i] + rep + a[i + 1:]})
+            cases.append({"kind": "Dec", "hrp": hrp, "addr": a[:5] + "\x80" + a[6:]})
+            cases.append({"kind": "Dec", "hrp": hrp, "addr": a + "\u3000"})
         for s in ["", "1", "bc1", "bc1q", "1qqqqqq", "bc1qqqqqq", "tb1pqqqqqq", "\x7f1axkwrx", "10a06t8", "1qzzfhee", "A12UEL5L", "a12uel5l",
                   "abcdef1qpzry9x8gf2tvdw0s3jn54khce6mua7lmqqqxw", "bc1qw508d6qejxtdg4y5r3zarvary0c5xw7kv8f3t4",
                   "BC1QW508D6QEJXTDG4Y5R3ZARVARY0C5XW7KV8F3T4", "bc1p0xlxvlhemja6c4dqv22uapctqupfhlxm9h8z3k2e72q4k9hcz7vqzk5jj0",
